@@ -55,18 +55,25 @@ def perturb(root, rng):
         if id(d) in taken:
             continue
         taken.add(id(d))
+        def pascal(upper_snake_name):
+            return "".join(p.capitalize() for p in upper_snake_name.split("_") if p)
+
         if rule == "type-not-pascal":
-            # PascalCase -> all lower snake: alpha_bravo
+            # PascalCase -> all lower snake (alpha_bravo) or UPPER_SNAKE (ALPHA_BRAVO): both clearly not PascalCase
             d.name = re.sub(r"(?<!^)(?=[A-Z])", "_", d.name).lower()
             if "_" not in d.name:
                 d.name = d.name + "_x"
+            if rng.random() < 0.5:
+                d.name = d.name.upper()
+                rule = "type-not-pascal:UPPER_SNAKE"
             out.append((d, rule))
         elif rule == "constant-not-upper":
-            d.name = d.name.lower()
+            d.name = d.name.lower() if rng.random() < 0.5 else pascal(d.name)
             out.append((d, rule))
         elif rule == "enum-member-not-upper":
             k = rng.randrange(len(d.members))
-            d.members[k] = (d.members[k][0].lower(), d.members[k][1])
+            n0 = d.members[k][0]
+            d.members[k] = (n0.lower() if rng.random() < 0.5 else pascal(n0), d.members[k][1])
             out.append((("ef#", d, k), rule))
         elif rule == "enum-without-zero":
             vals = [v for _, v in d.members]
@@ -78,7 +85,11 @@ def perturb(root, rng):
                 d.members[k] = (d.members[k][0], free)
             out.append((d, rule))
         else:
-            d.name = "".join(p.capitalize() for p in d.name.split("_"))  # snake -> Pascal
+            if rng.random() < 0.5 or "_" not in d.name:
+                d.name = "".join(p.capitalize() for p in d.name.split("_"))  # snake -> Pascal
+            else:
+                d.name = d.name.upper()  # snake -> UPPER_SNAKE
+                rule = "field-not-snake:UPPER_SNAKE"
             out.append((d, rule))
     return out
 
@@ -246,6 +257,12 @@ def worker(ctx):
                 continue
             if n_warn != len(warnings):
                 res.violation("lint-count", f"lint() returned {n_warn} but printed {len(warnings)} warnings", {**wit, "stderr": buf.getvalue()[-600:]})
+            all_warnings = list(warnings)
+            joined = (case_id % 2 == 0)
+            if joined:
+                # `proto x; <statement>` on one line exists to test first-line columns; a statement that does not start its
+                # line is not "4-space indentation", so an indent warning about line 1 is not a false warning
+                warnings = [w for w in warnings if not (w[1] == 1 and "ndent" in w[3])]
             if mode in ("conforming", "valid-twin"):
                 res.count("conforming_linted")
                 if mode == "conforming" and warnings:
@@ -276,9 +293,9 @@ def worker(ctx):
                     res.violation("lint-not-advisory", f"with lint: exit {r1[0]} files {sorted(os.listdir(o1))}; with -q: exit {r2[0]} files {sorted(os.listdir(o2))}", wit)
                 rc, so, se = sut_compiler.cli(["-c", main])
                 res.count("check_only_runs")
-                want_fail = len(warnings) > 0
+                want_fail = len(all_warnings) > 0
                 if (rc != 0) != want_fail:
-                    res.violation("check-only-exit-status", f"-c exits {rc} with {len(warnings)} warnings and no error", {**wit, "stderr": se[-300:]})
+                    res.violation("check-only-exit-status", f"-c exits {rc} with {len(all_warnings)} warnings and no error", {**wit, "stderr": se[-300:]})
         finally:
             shutil.rmtree(d, ignore_errors=True)
         if ctx.replay is not None:
@@ -298,6 +315,6 @@ if __name__ == "__main__":
         assumptions=["only clear case violations are asserted to warn; nothing is asserted about indentation warnings except that conforming files have none",
                      "columns are 1-based (language server contract)"],
         required_counters=["definition_positions_checked", "reference_positions_checked", "lint_runs", "conforming_linted", "perturbations_checked",
-                           "error_lines_checked", "advisory_pairs_compared", "check_only_runs", "perturbations:type-not-pascal", "perturbations:field-not-snake",
+                           "error_lines_checked", "advisory_pairs_compared", "check_only_runs", "perturbations:type-not-pascal", "perturbations:type-not-pascal:UPPER_SNAKE", "perturbations:field-not-snake", "perturbations:field-not-snake:UPPER_SNAKE",
                            "perturbations:constant-not-upper", "perturbations:enum-member-not-upper", "perturbations:enum-without-zero"],
     )
